@@ -29,6 +29,8 @@ type counter struct {
 	failAt int
 	kind   string
 	names  []string
+	// failName (set-up only): the first step with this name returns errInjected
+	failName string
 }
 
 func (c *counter) arm(failAt int, kind string) {
@@ -58,6 +60,13 @@ func (c *counter) step(name string) error {
 	}
 	c.n++
 	c.names = append(c.names, name)
+	if c.failName != "" {
+		if name == c.failName {
+			c.failName = ""
+			return errInjected
+		}
+		return nil
+	}
 	emit(map[string]interface{}{"t": "step", "n": c.n, "name": name})
 	if c.n != c.failAt {
 		return nil
